@@ -60,6 +60,9 @@ func nodeIP(i int, v6 bool) string {
 }
 
 func (g *gen) deadIP() string {
+	if g.chance(1, 5) {
+		return fmt.Sprintf("10.9.7.%d", 1+g.r.IntN(200)) // black hole
+	}
 	if g.chance(1, 4) {
 		return fmt.Sprintf("fd00::dead:%x", 1+g.r.IntN(200))
 	}
@@ -397,9 +400,8 @@ func genPlan(seed uint64, idx int) *Plan {
 					tgt = rr.Target
 				}
 			}
-			hh := *h
-			hh.name, hh.addrName = tgt, tgt
-			hh.name = h.name
+			hh := *h // same host (certificate, home node); the records live at the CNAME target
+			hh.addrName = tgt
 			g.svcSetAt(tgt, &hh)
 		}
 		for _, pt := range h.ports {
@@ -500,6 +502,9 @@ func genPlan(seed uint64, idx int) *Plan {
 			default:
 				q.HostOverride = q.Host + ":8081"
 			}
+		}
+		if q.HostOverride == "" && g.chance(1, 4) {
+			q.EmptyHost = true
 		}
 		q.Method = "GET"
 		if g.chance(1, 5) {
